@@ -39,6 +39,19 @@ CLAIMED.update({
     },
 })
 
+CLAIMED.update({
+    "C02": {
+        "text": "Structural necessary conditions of tell/seek consistency: typestate 'no stale block after reposition' in all four seek "
+                "implementations (must-pass-through from the inner seek to every success exit), the in-block offset stored only on the "
+                "edge where it was compared with the loaded block's length, one definition of the virtual position with confirmed "
+                "writers of every position field, and the paired-guard constant of the direct-read fast path. The reference-model "
+                "equality over histories and gzi boundary arithmetic are not decided.",
+        "note": "trusts inner Seek::seek; two genuine defects found by these rules were repaired (fix: commits 4ec97ac, 96ce989)",
+        "technique": "static analysis: must-pass-through typestate, guard dominance, who-may-write/who-may-call tables (MIR)",
+        "design_ref": "§5 C02",
+    },
+})
+
 NOT_APPLICABLE = {
     "C08": "every clause is numeric (rANS/arith/fqzcomp state arithmetic, ITF8/LTF8 bit arithmetic): correct and off-by-one "
            "implementations have the same code shape, so no sound static rule short of a solver/proof decides it; the "
